@@ -31,6 +31,9 @@ def scenarios(tier, rng):
         for (k, ms, pause) in kinds:
             for pos in ([0, 1] if (tier != "quick" or k in ("dup", "delay")) and peer == "rf" else [0]):
                 out.append({"peer": peer, "kind": k, "ms": ms, "pause": pause, "pos": pos})
+    # a late answer arriving while the next exchange of the same request is itself waiting (its own answer late, but in time)
+    for peer in ("rf", "abmf"):
+        out.append({"peer": peer, "kind": "delay", "ms": 7000, "pause": 0, "pos": 0, "script": [{"kind": "delay", "ms": 7000}, {"kind": "delay", "ms": 4000}]})
     if tier != "quick":
         for _ in range(24):
             out.append({"peer": rng.choice(["rf", "abmf"]), "kind": rng.choice(["dup", "delay", "latedup", "drop"]), "ms": rng.choice([20, 3000, 5200, 7000]),
@@ -55,6 +58,8 @@ def run_scenario(args):
         o = sim.do({"op": "update", "ref": ref, "body": body(supi, 2, 0, 2, 100)})
         base_rf, base_ab = len(o.get("rfEvents") or []), len(o.get("abmfEvents") or [])
         script = [{"kind": "ok"}] * sc["pos"] + [{"kind": sc["kind"], "ms": sc["ms"]}]
+        if sc.get("script"):
+            script = sc["script"]
         if sc.get("second"):
             script += [{"kind": "ok"}, {"kind": sc["second"], "ms": 0}]
         sim.do({"op": "fault", "peer": sc["peer"], "actions": script})
@@ -153,6 +158,17 @@ def run(ctx, replay=None):
                                        "what": "update no. %d requested %d units and was granted %s: it acted on an answer that was not its own (%s answer no. %d %s by %d ms)"
                                                % (k + 1, o["req"], o["granted"], sc["peer"], sc["pos"] + 1, sc["kind"], sc["ms"]),
                                        "replay": {"scenario": sc, "operations": r["ops"], "relay_log": r["events"]}})
+    # an answer that was due within the timer but found its connection closed: the request it answers had already
+    # finished - on somebody else's answer
+    for r in res:
+        for peer in ("rf", "abmf"):
+            for e in r["events"][peer]:
+                if e["kind"] == "delay" and e["ms"] < 4800 and e["written"] == 0 and not found:
+                    found = True
+                    ctx.violations.append({"property": "C19", "key": "C19/answer-of-another-request", "found_input": True,
+                                           "what": "the %s exchange no. %d finished before its own answer, due after %d ms, arrived (the relay found the connection closed): "
+                                                   "the request acted on an answer that was not its own" % (peer, e["seq"], e["ms"]),
+                                           "replay": {"scenario": r["sc"], "operations": r["ops"], "relay_log": r["events"]}})
     # ---- correspondence
     cases = []
     for r in res:
